@@ -15,10 +15,12 @@ TDo(ev) ==
     [] ev.e = "Rm"         -> r[1] = RmRes(a[1])[1] /\ CallsAre(ev, RmRes(a[1])[2]) /\ Rm(a[1])
     [] ev.e = "Count"      -> r = CountRes /\ ev.c = <<>> /\ Count
     [] ev.e = "IterAll"    -> TraversalOK(r[1], a[1], a[2]) /\ ev.c = <<>> /\ IterAll(a[1], a[2])
-    [] ev.e = "NotifyAdd"  -> r[1] = NotifyAddRc(a[1], a[2], a[3] = 1, a[4] = 1) /\ ev.c = <<>>
-                              /\ NotifyAdd(a[1], a[2], a[3] = 1, a[4] = 1)
-    [] ev.e = "NotifyDel"  -> r[1] = NotifyDelRc(a[1], a[2], a[3] = 1, a[4] = 1) /\ ev.c = <<>>
-                              /\ NotifyDel(a[1], a[2], a[3] = 1, a[4] = 1)
+    [] ev.e = "NotifyAdd"  -> r[1] = NotifyAddRc(a[1], a[2], a[3] = 1, a[4] = 1, a[5]) /\ ev.c = <<>>
+                              /\ NotifyAdd(a[1], a[2], a[3] = 1, a[4] = 1, a[5])
+    [] ev.e = "NotifyDel"  -> r[1] = NotifyDelRc(a[1], a[2], a[3] = 1, a[4] = 1, a[5]) /\ ev.c = <<>>
+                              /\ NotifyDel(a[1], a[2], a[3] = 1, a[4] = 1, a[5])
+    [] ev.e = "NotifyDelAny" -> r[1] = NotifyDelAnyRc(a[1], a[2], a[3] = 1, a[4] = 1) /\ ev.c = <<>>
+                              /\ NotifyDelAny(a[1], a[2], a[3] = 1, a[4] = 1)
     [] ev.e = "Destroy"    -> CallsAre(ev, DestroyRes[1]) /\ Destroy
     [] ev.e = "IterCreate" -> ev.c = <<>> /\ IterCreate(a[1], a[2])
     [] ev.e = "IterNext"   -> IterNextOK(a[1], r[1], r[2]) /\ ev.c = <<>> /\ IterNext(a[1], r[1])
